@@ -186,23 +186,34 @@ func (w *World) postSync(n *Node, th uint64, before hv, err error) {
 	}
 }
 
-// onNewRoundC14: the round entered by a sync above height 1 must not be led at view 0 by this node.
+// enteredBySync: the node started deciding height h in this instance without its own commit callback for h-1
+// having succeeded, i.e. through UpdateState.
+func (n *Node) enteredBySync(h uint64) bool {
+	for _, c := range n.obs.commits {
+		if c.epoch == n.epoch && !c.failed && c.height+1 == h {
+			return false
+		}
+	}
+	return true
+}
+
+// checkSyncedRoundFlag: the new-round callback of a round entered by sync above height 1 reports canBeFirstLeader=false.
+func (w *World) checkSyncedRoundFlag(n *Node, h uint64, first bool) {
+	if h > 1 && first && n.enteredBySync(h) {
+		w.violate("C14", "first-leader-flag-after-sync", "n%d entered h%d through a node sync but the new-round callback says canBeFirstLeader=true", n.idx, h)
+	}
+}
+
+// checkSyncedRoundNotLed: the round entered by a sync above height 1 must not be led at view 0 by this node.
 func (w *World) checkSyncedRoundNotLed(n *Node, s *SentRec) {
 	m := s.msg
 	if m == nil || m.Kind != KPP || m.Ref.V != 0 || m.Ref.H <= 1 {
 		return
 	}
-	for i := len(n.obs.newRounds) - 1; i >= 0; i-- {
-		r := n.obs.newRounds[i]
-		if r.epoch != n.epoch {
-			break
-		}
-		if r.height == m.Ref.H {
-			if !r.first {
-				w.violate("C14", "first-leader-after-sync", "n%d entered h%d through a node sync (canBeFirstLeader=false) and still sent the view-0 proposal", n.idx, r.height)
-			}
-			return
-		}
+	if n.enteredBySync(m.Ref.H) {
+		w.violate("C14", "first-leader-after-sync", "n%d entered h%d through a node sync and still sent the view-0 proposal", n.idx, m.Ref.H)
+	} else {
+		w.probe("view0-proposal-after-own-commit")
 	}
 }
 
